@@ -54,8 +54,10 @@ func (p *pool) Acquire(ctx context.Context) (v wire) {
 		go func() {
 			<-poolCtx.Done()
 			if context.Cause(poolCtx) != errAcquireComplete { // no need to broadcast if the poolCtx is cancelled explicitly.
+				p.cond.L.Lock() // serialize with the waiter: it is either parked already or will see ctx.Err() != nil
 				vhook("pool.watch.bcast", p, 0, 0)
 				p.cond.Broadcast()
+				p.cond.L.Unlock()
 			}
 		}()
 	}
